@@ -156,6 +156,10 @@ def check_built(ctx, cfg, exp, b, stage):
 
 # ---------------------------------------------------------------- held outputs and parse results (NdnPacketsHold)
 
+class HoldAbort(Exception):
+    pass
+
+
 class HoldWorld:
     """Everything make_* / parse_* returned in one history, kept alive, with a snapshot of what it must read as."""
 
@@ -178,7 +182,13 @@ class HoldWorld:
                 cfg.update(cbp=False, mbf=False, nonce=False, life=0, hop=False, fh=[])
         b = pk.build(cfg, rng, self.pool, target=False)
         if b.exc is not None:
-            raise MachineryError('hold history: %s refused a plain configuration: %r' % (kind, b.exc))
+            if isinstance(b.exc, MachineryError):
+                raise b.exc
+            # a plain configuration must be built: report it like stage B/C do and end this history here
+            self.ctx.violation('C01/%s/exception/%s' % (fn_of(cfg), type(b.exc).__name__),
+                               '%s raised %r for a configuration the reference builds' % (fn_of(cfg), b.exc),
+                               {'kind': 'cfg', 'stage': 'hold', 'cfg': cfg})
+            raise HoldAbort()
         self.wires.append({'kind': kind, 'raw': b.raw, 'snap': b.wire, 'meta': meta,
                            'fn': getattr(b, 'raw_final_name', None), 'fn_snap': [bytes(c) for c in b.raw_final_name] if kind == 'interest' else None})
 
@@ -246,7 +256,10 @@ def run_hold_history(ctx, steps, pool):
     ev = []
     for stp in steps:
         if stp[0] == 'Make':
-            w.make(stp[1], bool(stp[2]))
+            try:
+                w.make(stp[1], bool(stp[2]))
+            except HoldAbort:
+                break
             e = {'a': 'Make', 'kind': stp[1], 'meta': bool(stp[2])}
         elif stp[0] == 'Parse':
             w.parse(stp[1])
